@@ -572,7 +572,10 @@ def exec_smtp(case, alone=False):
 # pipe relays
 # ------------------------------------------------------------------------------------------------
 STUB = r'''#!/bin/sh
-# C11 delivery-program stub: behaviour is encoded in the argv token B_<exit>_<stdout>_<stderr>_<sleep>_<n>
+# C11 delivery-program stub: behaviour is encoded in the argv token
+#   B_<exit>_<stdout>_<stderr>_<sleep>_<n>[_<SIGNAL>_<pre|post>]
+# with a signal the program kills itself (kill -SIGNAL $$) before (pre) or after (post) draining stdin,
+# after having written the scripted output; it never logs an 'exit' line then.
 tok=""; log=""
 for a in "$@"; do
   case "$a" in
@@ -580,12 +583,18 @@ for a in "$@"; do
     */c11log-*) log="$a";;
   esac
 done
-cat >/dev/null
 tok="${tok%%@*}"
 full="$tok"
 IFS=_
 set -- $tok
-code="$2"; out="$3"; err="$4"; slp="$5"
+code="$2"; out="$3"; err="$4"; slp="$5"; sig="$7"; when="$8"
+die() {
+  emit "$out"
+  emit "$err" >&2
+  [ -n "$log" ] && echo "signal $full $sig $when" >> "$log"
+  kill -"$sig" $$
+  sleep 5
+}
 emit() {
   case "$1" in
     1) printf '5.1.1 no such user\n';;
@@ -595,6 +604,9 @@ emit() {
   esac
 }
 [ -n "$log" ] && echo "start $full" >> "$log"
+if [ -n "$sig" ] && [ "$when" = "pre" ]; then die; fi
+cat >/dev/null
+if [ -n "$sig" ]; then die; fi
 if [ "$slp" != "0" ]; then sleep "$slp"; fi
 emit "$out"
 emit "$err" >&2
@@ -616,8 +628,14 @@ def _stub_path():
 
 
 def expect_pipe(cls, beh):
-    """beh = [exit, out, err, sleep]; -> 'D' | 'T' | 'P' | 'F' (a failure of either class)."""
-    ex, out, err, slp = beh
+    """beh = [exit, out, err, sleep(, signal, 'pre'|'post')]; -> 'D' | 'T' | 'P' | 'F' (a failure of either
+    class).  A program killed by a signal delivered nothing: a failure is demanded, its class is not -- the
+    statement lists exit statuses and output, not signals; postfix pipe(8) defers, the documented PipeRelay
+    rule says transient unless the output starts with 5.x.x, maildrop / dovecot-lda say permanent unless
+    EX_TEMPFAIL: none of these is contradicted by the statement."""
+    ex, out, err, slp = beh[:4]
+    if len(beh) > 4 and beh[4]:
+        return 'F'
     if slp:
         return 'T'
     if ex == 0:
@@ -643,8 +661,22 @@ def gen_pipe_all():
             beh = [ex, 0, 0, 0.8]
             cases.append({'kind': 'pipe', 'cls': cls, 'nrcpt': 1, 'behs': [beh], 'stage': 'sleep',
                           'outcome': 'timeout', 'timeout': T_STALL, 'expect': ['T'], 'single': True, 'slow': True})
+        # the delivery program dies from a signal (Popen.returncode < 0), with / without output, before /
+        # after draining stdin; the would-be exit status in the token is 0
+        for sig in ('KILL', 'TERM', 'SEGV'):
+            for when in ('pre', 'post'):
+                for out, err in ((0, 0), (1, 0), (0, 2), (3, 0)):
+                    beh = [0, out, err, 0, sig, when]
+                    for nrcpt in ((1, 2) if cls in ('pipe-single', 'maildrop') and (out, err) == (0, 0) else (1,)):
+                        cases.append({'kind': 'pipe', 'cls': cls, 'nrcpt': nrcpt, 'behs': [beh],
+                                      'stage': 'signal-' + sig,
+                                      'outcome': '%s-drain,out=%s,err=%s%s' % (when, SHAPES[out], SHAPES[err],
+                                                                              ',2rcpt' if nrcpt == 2 else ''),
+                                      'timeout': None, 'expect': ['F'] * nrcpt, 'single': True})
     # per-recipient mixes (each recipient its own behaviour)
-    mixes = [([0, 0, 0, 0], [1, 1, 0, 0]), ([1, 0, 2, 0], [0, 0, 0, 0]), ([75, 0, 0, 0], [0, 1, 1, 0]),
+    ok, k9, seg = [0, 0, 0, 0], [0, 0, 0, 0, 'KILL', 'post'], [0, 1, 0, 0, 'SEGV', 'pre']
+    mixes = [(ok, k9), (k9, ok), (ok, seg, ok), (seg, k9), ([1, 1, 0, 0], [0, 0, 0, 0, 'TERM', 'post'], ok),
+             ([0, 0, 0, 0], [1, 1, 0, 0]), ([1, 0, 2, 0], [0, 0, 0, 0]), ([75, 0, 0, 0], [0, 1, 1, 0]),
              ([0, 0, 0, 0], [1, 4, 0, 0], [0, 0, 0, 0]), ([1, 0, 1, 0], [75, 2, 0, 0], [127, 0, 0, 0]),
              ([0, 0, 0, 0], [0, 0, 0, 0.8]), ([0, 0, 0, 0.8], [0, 0, 0, 0]), ([1, 1, 0, 0], [0, 0, 0, 0.8], [0, 0, 0, 0])]
     for cls in ('pipe-per-rcpt', 'dovecot'):
@@ -655,7 +687,9 @@ def gen_pipe_all():
                 timed_out = timed_out or bool(b[3])
                 exp.append('T' if timed_out else expect_pipe(cls, list(b)))
             cases.append({'kind': 'pipe', 'cls': cls, 'nrcpt': len(mix), 'behs': [list(b) for b in mix],
-                          'stage': 'mix', 'outcome': '/'.join('x%d%s' % (b[0], '+sleep' if b[3] else '') for b in mix),
+                          'stage': 'mix', 'outcome': '/'.join(
+                              ('sig' + b[4]) if len(b) > 4 else 'x%d%s' % (b[0], '+sleep' if b[3] else '')
+                              for b in mix),
                           'timeout': T_STALL if slow else None, 'expect': exp, 'single': True, 'slow': slow})
     # single mode with two recipients: one run decides for the message
     for cls in ('pipe-single', 'maildrop'):
@@ -668,7 +702,8 @@ def gen_pipe_all():
 
 
 def _tok(beh, n):
-    return 'B_%d_%d_%d_%s_%d' % (beh[0], beh[1], beh[2], beh[3] or 0, n)
+    t = 'B_%d_%d_%d_%s_%d' % (beh[0], beh[1], beh[2], beh[3] or 0, n)
+    return t + ('_%s_%s' % (beh[4], beh[5]) if len(beh) > 4 and beh[4] else '')
 
 
 def exec_pipe(case, alone=False):
@@ -1166,6 +1201,11 @@ def classify(clause, case, m, extra='', crashes=()):
                 return 'unsafe-delivered/smtp+lmtp/rcpt-reply-1xx-or-3xx-taken-as-accepted'
             if any(st.startswith('eod') for st in wc):
                 return 'unsafe-delivered/smtp+lmtp/eod-reply-1xx-or-3xx-taken-as-accepted'
+        if k == 'pipe' and extra.isdigit() and case['cls'] in PIPE_CLASSES:
+            behs = case['behs']
+            b = behs[0] if case['cls'] in ('pipe-single', 'maildrop') else behs[int(extra)]
+            if len(b) > 4 and b[4]:
+                return 'unsafe-delivered/pipe/child-killed-by-signal-reported-delivered'
         return 'unclassified/unsafe-delivered/%s/%s/%s' % (k, fam, oc)
     if clause == 'class':
         if k == 'http' and outcome.endswith('-command') and "no attribute 'decode'" in str(res['per']):
@@ -1302,7 +1342,7 @@ def is_nontrivial(case):
     if case['kind'] == 'smtp':
         return bool(case['faults'])
     if case['kind'] == 'pipe':
-        return any(b[0] != 0 or b[3] for b in case['behs'])
+        return any(b[0] != 0 or b[3] or len(b) > 4 for b in case['behs'])
     if case['kind'] == 'http':
         return not (case['stage'] in ('status200', 'status204') and case['outcome'] in ('hdr-250', 'hdr-none')
                     and not case.get('reuse'))
